@@ -33,10 +33,13 @@ SCHEMA.globals = {
     "Unit._by_name": ("dict", ("str",), T_UNIT),
     "Unit._by_symbol": ("dict", ("str",), T_UNIT),
     "Unit._base": ("set", T_UNIT),
+    "ROOT_POWER_DIMENSIONS": ("set", T_DIM),
     "conversions._ratios": ("dict2", T_UNIT, ("num",)),
     "conversions._offsets": ("dict2", T_UNIT, ("num",)),
 }
 for _g in list(SCHEMA.globals):
+    if "." not in _g:
+        continue
     _c, _a = _g.split(".")
     if _c != "conversions":
         SCHEMA.class_attr[(_c, _a)] = _g
